@@ -128,7 +128,7 @@ theorem C10_g0_scaling_counterexample : ¬ C10_g0_scaling_stmt := by
 end G0Witness
 
 section MatrixSub
-variable {K : Type} [Field K] [HasConj K] {m n : Nat}
+variable {K : Type} [Field K] [HasConj K] [HasIsZero K] {m n : Nat}
 
 /-- **`MatrixSubproblemSolver`**: the factorisation solver is built for `A`, `W' = 2αW` and
     `D = Σ ρ_i C_iᴴC_i` (a 1-D `D` iff every `C_i` is a `Diagonal`), so that its documented system
